@@ -153,4 +153,8 @@ def scenarios(seed, n):
     out = catalogue_scenarios(rnd) + sweep_scenarios(rnd)
     for i in range(n):
         out.append(scenario(rnd, hostile_p=rnd.choice([0.0, 0.3, 0.5, 0.7])))
-    return out
+    # the same inputs on a lite (spv) client: it trusts what it is given, so only crash freedom is checked
+    lite = [dict(s, spv=True) for s in catalogue_scenarios(rnd)]
+    for i in range(max(20, n // 4)):
+        lite.append(dict(scenario(rnd, hostile_p=rnd.choice([0.3, 0.6])), spv=True))
+    return out + lite
